@@ -28,6 +28,8 @@ pub fn formulas(quick: bool) -> Vec<String> {
     let atoms_all = [
         "r(X,Y)", "q(X)", "r(X,Y1)", "r(Y,Y1)", "q(X$i)", "r(X$i,Y$i)", "r(X$i,Y1$i)", "X = Y",
         "X$i = Y$i + 1", "X < Y1", "q(X$s)", "r(X$s,Y)", "r(Y$i,Y2$i)", "r(X,X$i)",
+        // chained comparisons: the substituted variable (and the binder to be renamed) in a later guard
+        "Y2 < Y < X", "Y$i <= Y1$i < X$i", "Y < Y1 = X",
     ];
     let atoms_small = ["r(X,Y)", "r(X,Y1)", "r(X$i,Y$i)", "r(X$i,Y1$i)", "r(X$s,Y)", "X = Y"];
     let vars = ["X", "Y", "Y1", "Y2", "X$i", "Y$i", "Y1$i", "X$s", "Y$s"];
